@@ -204,12 +204,28 @@ func runC09(t *testing.T, sc C09Scenario, keep bool) *core.Result {
 	}
 	src := &segReader{data: []byte(text), st: C16Stream{Sizes: sc.SrcSizes, ErrAt: sc.SrcErrAt}}
 	var out bytes.Buffer
-	var rerr error
+	var rerr, secondErr error
+	var second []string
+	secondDone := false
 	finished := false
 	opt := sched.Options{Tape: sc.Tape, TapeSeed: sc.TapeSeed, Calm: sc.Calm, KeepSchedule: keep, MaxSteps: 200000, NoAdvanceWhileEnabled: true}
 	sched.Bubble(t, opt, func(s *sched.Sim) {
 		s.Go("consumer", false, func() {
-			p := dnsdata.NewPreprocReader(src, preprocCodec())
+			codec := preprocCodec()
+			p := dnsdata.NewPreprocReader(src, codec)
+			defer func() {
+				// the accumulator can be exported again (a tool that preprocesses and compiles with one
+				// codec does): the second export holds the same range-point lines as the first
+				if rerr == nil && !src.fired && len(res.Violations) == 0 {
+					if again, err := codec.Acc.MarshalText(); err != nil {
+						secondErr = err
+					} else {
+						second = splitLines(string(again))
+						secondDone = true
+					}
+				}
+				finished = true
+			}()
 			for i := 0; ; i++ {
 				buf := make([]byte, sc.BufSizes[i%len(sc.BufSizes)])
 				n, err := p.Read(buf)
@@ -226,7 +242,6 @@ func runC09(t *testing.T, sc C09Scenario, keep bool) *core.Result {
 				}
 				s.Y("consumer.read")
 			}
-			finished = true
 		})
 		err := s.Run()
 		res.FromSim(s)
@@ -277,6 +292,25 @@ func runC09(t *testing.T, sc C09Scenario, keep bool) *core.Result {
 	if strings.Join(a, "\n") != strings.Join(b, "\n") {
 		res.Add("text-differs", "text-differs|by-read-size", fmt.Sprintf("with consumer buffers %v the preprocessed text has %d lines, with plain reads %d (lines lost, duplicated or cut at a buffer boundary)", sc.BufSizes, len(a), len(b)))
 		return res
+	}
+	if secondErr != nil {
+		res.Add("second-export-differs", "second-export-differs|error", "exporting the accumulator a second time failed: "+secondErr.Error())
+		return res
+	}
+	if secondDone {
+		var first []string
+		for _, l := range pp {
+			if l[0] == '!' {
+				first = append(first, l)
+			}
+		}
+		sort.Strings(first)
+		sort.Strings(second)
+		if strings.Join(first, "\n") != strings.Join(second, "\n") {
+			res.Add("second-export-differs", "second-export-differs", fmt.Sprintf("the accumulator of the same codec exported a second time gives %d range-point lines, the first time %d (or other ones)", len(second), len(first)))
+			return res
+		}
+		res.Probe("accumulator_exported_twice")
 	}
 	want, err := referenceDB(lines, rdbCodec(4242, sc.V2))
 	if err != nil {
